@@ -121,7 +121,7 @@ func TestVerif_C17(t *testing.T) {
 	for ep := 0; ep < evid.Pick(1, 6) && rec.Violations() < 30; ep++ {
 		vfC17OverlappingStops(rec, ep)
 	}
-	for ep := 0; ep < evid.Pick(4, 40) && rec.Violations() < 30; ep++ {
+	for ep := 0; ep < evid.Pick(6, 42) && rec.Violations() < 30; ep++ {
 		vfC17ApiCallAcrossShutdown(rec, ep)
 	}
 	for ep := 0; ep < evid.Pick(1, 6) && rec.Violations() < 30; ep++ {
@@ -920,7 +920,15 @@ func vfC17ApiCallAcrossShutdown(rec *evid.Rec, ep int) {
 	}
 	fs.SetHook(nil)
 	rec.Eval(1)
-	if a, d := n.attrCache.Size(), n.dirCache.Size(); a != 0 || d != 0 {
+	a, d := n.attrCache.Size(), n.dirCache.Size()
+	if op == "ReadDir" {
+		// ReadDir goes on to look every entry up AFTER its (parked) directory read: those are new
+		// backend reads made after the shutdown call, which any call made after Close would cache as
+		// well. What was read BEFORE the shutdown is the listing: it is the directory cache that
+		// must not receive it. (Judging the attribute cache here was a false alarm, see DESIGN 6.)
+		a = 0
+	}
+	if a != 0 || d != 0 {
 		rec.Violate("C17/caches-refilled-after-"+how+"-by-a-call-that-started-before-it/op="+op, fmt.Sprintf("%s(...) had read the backend before %s() and finished after it: attr-cache=%d dir-cache=%d entries afterwards", op, how, a, d), nil)
 	}
 	rec.Distinct(fmt.Sprintf("api-call-across-shutdown|%s|%s", how, op))
